@@ -52,14 +52,16 @@ func (w *FileWriter) Open() error {
 		return fmt.Errorf("file writer for '%s' is already closed", w.file.Name())
 	}
 
+	// the compression type is checked before anything is written: a header with an unknown code must never reach the file
+	compressor, err := NewCompressorForType(w.compressionType)
+	if err != nil {
+		return fmt.Errorf("creating compressor with type '%d' in file at '%s' failed with %w", w.compressionType, w.file.Name(), err)
+	}
+	w.compressor = compressor
+
 	offset, err := writeFileHeader(w)
 	if err != nil {
 		return fmt.Errorf("writing header in file at '%s' failed with %w", w.file.Name(), err)
-	}
-
-	w.compressor, err = NewCompressorForType(w.compressionType)
-	if err != nil {
-		return fmt.Errorf("creating compressor with type '%d' in file at '%s' failed with %w", w.compressionType, w.file.Name(), err)
 	}
 
 	w.currentOffset = uint64(offset)
